@@ -69,8 +69,10 @@ func (p expressionParser) Parse(pi *parse.Input) (s Expression, ok bool, err err
 	braceCount := p.startBraceCount
 
 	sb := new(strings.Builder)
+	vf := verifEnter()
 loop:
 	for {
+		verifIter(pi, "expressionParser", vf)
 		var result string
 
 		// Try to parse a single line comment.
